@@ -339,4 +339,42 @@ theorem completedOf_append (a b : List Event) : completedOf (a ++ b) = completed
 theorem optimize_events (v : Variant) (gs : List Goal) (skip : Int → Bool) (oracle : Nat → Bool) :
     (optimize v gs skip oracle).events = (core v gs skip oracle).events ++ [.post] := rfl
 
+/-- the cache flag/contents and the base-class output at the end of one run, read off its log -/
+theorem optimize_cache_raw (v : Variant) (gs : List Goal) (skip : Int → Bool) (oracle : Nat → Bool) :
+    (optimize v gs skip oracle).cache = lastOk (solvesOf (optimize v gs skip oracle).events) ∧
+    (optimize v gs skip oracle).lastRaw = (solvesOf (optimize v gs skip oracle).events).getLast? := by
+  have hsv : solvesOf (optimize v gs skip oracle).events = solvesOf (core v gs skip oracle).events := by
+    rw [optimize_events, solvesOf_append]; simp [solvesOf]
+  rw [hsv]
+  have hs := loop_solves (effSkip v skip) oracle (priorities gs) 0 false none none
+  simp only at hs
+  obtain ⟨_, _, _, hcache, hraw, _⟩ := hs
+  constructor
+  · show (core v gs skip oracle).cache = _
+    unfold core; rw [hcache]
+    cases lastOk (solvesOf (loop (effSkip v skip) oracle (priorities gs) 0 false none none).events) <;> rfl
+  · show (core v gs skip oracle).lastRaw = _
+    unfold core; rw [hraw]
+    cases (solvesOf (loop (effSkip v skip) oracle (priorities gs) 0 false none none).events).getLast? <;> rfl
+
+theorem seqFrom_length (v : Variant) (reset : Bool) : ∀ (rs : List RunSpec) (k : Nat) (st : Persist),
+    (seqFrom v reset k st rs).length = rs.length
+  | [], _, _ => rfl
+  | r :: rs, k, st => by simp [seqFrom, seqFrom_length v reset rs]
+
+/-- the i-th element of a sequence is one `runOnce`, number `k + i`, from SOME carried state -/
+theorem seqFrom_get (v : Variant) (reset : Bool) : ∀ (rs : List RunSpec) (k : Nat) (st : Persist)
+    (i : Nat) (hi : i < rs.length),
+    ∃ sti, (seqFrom v reset k st rs)[i]'(by rw [seqFrom_length]; exact hi) =
+      ((runOnce v reset (k + i) sti rs[i]).2, exposedS (runOnce v reset (k + i) sti rs[i]).1)
+  | [], _, _, i, hi => by simp at hi
+  | r :: rs, k, st, 0, _ => ⟨st, by simp [seqFrom]⟩
+  | r :: rs, k, st, i + 1, hi => by
+    obtain ⟨sti, h⟩ := seqFrom_get v reset rs (k + 1) (runOnce v reset k st r).1 i (by simpa using hi)
+    refine ⟨sti, ?_⟩
+    simp only [seqFrom, List.getElem_cons_succ]
+    rw [h]
+    have : k + 1 + i = k + (i + 1) := by omega
+    rw [this]
+
 end RtcVerif.C10
